@@ -12,6 +12,9 @@ pub struct WalkOpts {
     /// allow configuration / ownership / validator changes
     pub admin_ops: bool,
     pub steps: usize,
+    /// C17: every `sweep_every` steps (0 = never) the whole read API is swept and recorded here
+    pub sweep_every: usize,
+    pub sweeps: std::cell::RefCell<Vec<Value>>,
 }
 
 fn ju(v: &Value, k: &str) -> u128 {
@@ -95,7 +98,11 @@ pub fn walk(sink: &mut Sink, seed: u64, run_id: u64, setup: Setup, opts: &WalkOp
         r.apply(sink, &json!({"m":"faucet","a":u,"d":"IBCTIA","x": rng.gen_range(300..900)}));
     }
     let mut admin = "admin".to_string();
-    for _ in 0..opts.steps {
+    for step_no in 0..opts.steps {
+        if opts.sweep_every > 0 && step_no % opts.sweep_every == opts.sweep_every - 1 {
+            let users: Vec<String> = USERS.iter().map(|s| s.to_string()).chain(["admin".to_string(), "u5".to_string()]).collect();
+            crate::qsweep::sweep(&r.w, &users, &mut opts.sweeps.borrow_mut());
+        }
         let v = View::of(&r);
         let total_w: u32 = 100;
         let pick = rng.gen_range(0..total_w);
